@@ -92,9 +92,35 @@ CHANGE3 = {
 }
 CHANGE.update(CHANGE3)
 
+# round 4: "a trigger of a different kind: a dimension of the input space that randomised tests leave constant"
+CHANGE4 = {
+    "C01-g": "`infeasible_elimination` intersects every path polytope with the box [-1e6, 1e6]^n",
+    "C01-h": "`AffFunc::compose` fast path: identity matrix ⇒ return the other function (own bias forgotten)",
+    "C02-g": "composed predicate entries with |v| < 1e-9 are set to 0 ('round-off residue')",
+    "C02-h": "`compose::<false, true>` dispatches to the pruning schema (copy-paste in the VERBOSE arm)",
+    "C03-g": "`compose::<true, true>` takes the terminals to expand from `other` instead of `self`",
+    "C03-h": "`is_edge_feasible`: `Optimal(solution) => poly.contains(&solution)` (fails at weights >= 1e5)",
+    "C04-g": "`Tree::num_nodes` counts recursively (call stack grows with the depth of the subtree)",
+    "C04-h": "verbose visitor divides the elapsed time by the number of created nodes (zero for a no-node operand)",
+    "C05-g": "`phase_two` solves the LP on the path polytope intersected with hypercube(1e6)",
+    "C05-h": "parent's cached state cloned into a node whose cut is 'implied' by an earlier parallel cut (comparison reversed)",
+    "C06-g": "the 'LP answer could not be fixed' arms of `phase_two` return Infeasible instead of Indeterminate",
+    "C06-h": "pre-check: nearly opposite normals (cosine < -1 + 1e-10) with negative bias sum ⇒ Infeasible without LP",
+    "C07-g": "`is_edge_feasible` returns `witnesses.any(contains)` (same slip as C03-c, stored for C07: cached left operand)",
+    "C07-h": "zero-function fast path in the shared operator macro (correct for + and -, wrong for * and /)",
+    "C09-h": "`PolyhedraIter::nth` advances the inner DfsPre directly (predicate stack not maintained)",
+    "C09-i": "`evaluate_decision` reads the input through `as_slice_memory_order()`",
+    "C10-g": "`solve_linprog` early return `Optimal(0)` for a polytope without rows (objective ignored)",
+    "C10-h": "solution coordinates with |x| >= 1e20 are re-classified as Unbounded",
+    "C11-g": "side table `vec![false; len()]` indexed with slab keys (live key >= len after removals) on an Indeterminate node",
+    "C11-h": "fallback: a node Indeterminate after phase_two takes the parent's witnesses if 'all other branches' are infeasible (vacuous for a single child)",
+}
+CHANGE.update(CHANGE4)
+
 
 def main():
     only3 = len(sys.argv) > 1 and sys.argv[1] == "round3"
+    only4 = len(sys.argv) > 1 and sys.argv[1] == "round4"
     only2 = len(sys.argv) > 1 and sys.argv[1] == "round2"
     sdir = os.path.join(ROOT, "seeded")
     print("| id | change | needs to manifest | caught by (signatures) |")
@@ -103,9 +129,11 @@ def main():
         mp = os.path.join(sdir, sid, "meta.json")
         if not os.path.exists(mp):
             continue
-        if only2 and (sid not in CHANGE or sid in CHANGE3):
+        if only2 and (sid not in CHANGE or sid in CHANGE3 or sid in CHANGE4):
             continue
         if only3 and sid not in CHANGE3:
+            continue
+        if only4 and sid not in CHANGE4:
             continue
         m = json.load(open(mp))
         own = m["property"]
